@@ -116,13 +116,26 @@ def apply_history(space, make, hist):
     the constructor's transform= argument, set_transform, add_transform, precompose_transform, in this order."""
     hist = [list(h) for h in hist]
     if hist and hist[0][0] == "ctor":
-        d = make(lib_transform(space, hist[0][1]))
+        t = lib_transform(space, hist[0][1])
+        d = make(t)
+        if space == "hyperbolic":
+            _scribble(t)        # (ProjectiveDrawing keeps the constructor's transform object itself: by design, not scribbled on)
         hist = hist[1:]
     else:
         d = make(None)
     for op, name in hist:
-        {"set": d.set_transform, "add": d.add_transform, "pre": d.precompose_transform}[op](lib_transform(space, name))
+        t = lib_transform(space, name)
+        {"set": d.set_transform, "add": d.add_transform, "pre": d.precompose_transform}[op](t)
+        _scribble(t)
     return d
+
+
+def _scribble(t):
+    """The caller goes on using his transformation object after handing it to the drawing (which converts it with
+    astype): overwrite its matrix in place with another valid isometry; the drawing must not follow."""
+    if t is not None:
+        c, s_ = np.cos(1.0), np.sin(1.0)
+        np.asarray(t.proj_data)[...] = np.array([[1.0, 0.0, 0.0], [0.0, c, s_], [0.0, -s_, c]])
 
 
 def hist_matrix(space, hist):
@@ -178,7 +191,12 @@ def new_drawing(model, tf, hist=None, mname=None):
 
     def make(t):
         return drawtools.HyperbolicDrawing(model=lib_model(model, mname), transform=t)
-    d = apply_history("hyperbolic", make, hist) if hist is not None else make(lib_transform("hyperbolic", tf))
+    if hist is not None:
+        d = apply_history("hyperbolic", make, hist)
+    else:
+        t = lib_transform("hyperbolic", tf)
+        d = make(t)
+        _scribble(t)
     _decoy_axes(plt)
     return d
 
